@@ -459,4 +459,105 @@ PROPS = {
                     "is decided per generated program by the proved multiset judge, not proved over a syntax model",
                     "C08_pos_roundtrip excludes offset 0 of a BOM-led text and offsets inside a character (both refuted with witnesses that agree with text_lines)"],
     },
+    "C09": {
+        "harness": "c09",
+        "props_file": "Props/C09.v",
+        "run_module": "Model.Lattice Model.FcClosure Model.RunC09",
+        "run_fn": "run_c09",
+        "level": "proof",
+        "pinned_theorems": ["L_extend_sound", "L_extend_covers", "L_extend_no_more", "L_extend_strict",
+                            "L_exports_extend_sound", "L_exports_extend_covers", "L_exports_extend_no_more",
+                            "L_add_sound", "L_add_covers", "L_add_none", "L_add_no_more_state",
+                            "L_add_exact_outside_class", "L_add_no_more_outside_class",
+                            "L_add_exact_refuted", "L_add_no_more_refuted", "L_terminates", "L_measure_bounded",
+                            "L_add_qualified_den", "L_from_parts_den", "L_add_named_den",
+                            "C09_closedb_correct", "C09_exportedb_correct", "C09_private_member_class",
+                            "C09_dangling_outside_known_class", "C09_closed_ambient_private_refuted"],
+        "exhaustive": {"quick": True, "thorough": True},
+        "rule": ("four streams by case number. (lattice sequences) 2119 (quick) / 60000 (thorough) random cases through the "
+                 "cfg-guarded hooks of /repo: NamedSubset operation sequences of 1-12 operations (from_parts, add, "
+                 "add_qualified, add_named, extend) over the 5-name universe {default,a,b,prototype,c} with values of nesting "
+                 "depth <= 3 and random key insertion order, batches of Exports::extend pairs, and ImportedExports::add "
+                 "sequences of 1-12 increments; after every operation the real state and returned difference are compared "
+                 "STRUCTURALLY (key order included) with the extracted model. (lattice pairs, exhaustive) ALL ordered pairs "
+                 "of ImportedExports values of nesting depth <= 2 over 2 names incl. default (quick: 38 x 38) / 3 names "
+                 "(thorough: 1002 x 1002), the increment's keys in the opposite insertion order. (corpus) every spec under "
+                 "/repo/tests/specs/graph/fast_check (recursively, 108 files) and tests/specs/graph/jsr (35 files) is served "
+                 "from memory, built and fast-checked by the REAL code as the spec runner does (fast_check_dts = false). "
+                 "(generated) 700 (quick) / 12000 (thorough) worlds of 1-3 JSR packages with 1-4 modules (.ts/.tsx/.d.ts, "
+                 "optionally a second entrypoint) of 3-9 declarations (interface, type alias, class with public/static/"
+                 "private members, accessor, optional base class, function with/without overloads and default parameters, "
+                 "const with literal or typed initialiser, enum, namespace with exported/private/nested members, type+value "
+                 "of one name with either exported), exported or private, types drawn at random from local declarations, "
+                 "namespace-qualified members, typeof values, named/aliased/type-only/namespace/default imports from "
+                 "sibling modules and other packages, import types (plain and qualified), named/aliased/star/namespace "
+                 "re-exports, local export lists and default exports; 12% of packages get a fast-check error. For every "
+                 "emitted module the harness re-parses original and output with deno_ast + scope analysis, decodes the "
+                 "source map (own VLQ decoder) and hands the facts to the extracted judge closedb (proved = Closed): (1) "
+                 "parses with the source's media type, (2) no identifier bound at module level in the original is "
+                 "unresolved in the output, (3) every name imported/re-exported (incl. import-type qualifiers) from a "
+                 "module of the graph is exported by that module's emitted text (its original when it has none) through "
+                 "export-star chains, (4) every relative specifier is a key of the fast-check dependencies that resolves in "
+                 "the graph, (5) source map decodes, every segment lies inside both texts, every generated identifier "
+                 "token that starts at a segment maps to the same identifier (keywords, modifier keywords in the original, "
+                 "the same name as a string-literal key, and a second segment at the same position that maps correctly "
+                 "are exempt). non-trivial = lattice case with >= 3 operations, or a world with an emitted module in which >= 1 private module-level declaration was pulled in by reference and >= 1 was dropped; "
+                 "distinct = distinct model input"),
+        "assumptions": [
+            "the tracer (analyze_module_info) and the transform are NOT modelled: closure of real outputs is judged per output by the proved decision procedure, not proved for all inputs",
+            "clause 5 (source maps) concerns SWC's emitter: checked per output, no theorem",
+            "IndexMap invariant (unique keys at every level) is a hypothesis of the lattice laws (wf_n / wf_e / wf_i) and is proved preserved by every operation",
+            "scope analysis (which identifiers are unresolved / module-level) is SWC's resolver as exposed by deno_ast; the export tables are read from the re-parsed AST by the harness",
+            "known finding F-C09a (private members of ambient classes keep references to untraced declarations) is reported as KNOWN-FINDING; all other clauses of those modules are still judged",
+        ],
+        "partial": ["closure is proved for the lattice only (L_*); for the tracer/transform it is decided per real output (C09_closedb_correct), generated and corpus",
+                    "L_add_sound as an equality and L_add_no_more are refuted in one class (qualified `default` meets Star: over-approximation, L_add_exact_refuted / L_add_no_more_refuted) and proved outside it",
+                    "the statement 'every emitted module is closed' is refuted for ambient classes with private members referencing private declarations (C09_closed_ambient_private_refuted, F-C09a)"],
+    },
+    "C12": {
+        "harness": "c12",
+        "props_file": "Props/C12.v",
+        "run_module": "Model.FcDriver Model.RunC12",
+        "run_fn": "run_c12",
+        "level": "proof",
+        "pinned_theorems": ["C12_all_or_nothing", "C12_entries_homogeneous", "C12_all_or_nothing_hit_success",
+                            "C12_all_or_nothing_hit_failure", "C12_aonb_correct", "C12_all_or_nothing_warm_refuted",
+                            "C12_deterministic", "C12_handled_is_closure", "C12_cache_soundb_correct",
+                            "C12_cache_transparent_partial", "C12_no_cache_no_write", "C12_cache_transparent_refuted"],
+        "rule": ("one case = one HISTORY on the real code. Worlds: 8 corpus specs (the five cache__* specs, the two "
+                 "workspace_fast_check specs (collect-all-diagnostics mode), basic); 400 (quick) / 10000 (thorough) "
+                 "generated worlds of 1-4 JSR packages (generator of C09 without cross-package `export *`, 35% of the "
+                 "packages failing fast check through a transform diagnostic or a tracer diagnostic, optional second "
+                 "entrypoint, optionally a module that is in the graph but never traced), 12% of them the retrace "
+                 "shape (a diagnostic of an early module caused by a trace that starts in a later module). History: "
+                 "sources v1 without cache (5 runs: determinism), with a shared in-memory FastCheckCache cold, then "
+                 "warm; ONE source is edited (the erroring module: error removed / private edit, an entrypoint, an "
+                 "untraced module, a public declaration added, a private declaration added, an error introduced, a "
+                 "comment; any package, so dependency packages too); v2 without cache, with the now stale or still "
+                 "valid cache, warm; v1 again with the cache twice (8 steps). Per world state the harness abstracts "
+                 "what the REAL tracer found (hook verif_public_ranges: module order, dependencies; outcomes from the "
+                 "cache-less run) and the extracted driver model, threading its OWN cache, predicts for every step "
+                 "the fast-check slot of every module (output id / diagnostics with codes and specifiers / none), the "
+                 "full cache content (keys, dependencies, per-module kind + source hash + output) and the get/set "
+                 "traffic; all compared with the real run. The real slots are judged by extracted, proved decision "
+                 "procedures: all-or-nothing per package (aonb), emitted modules (text, source map, dependencies) "
+                 "identical to the cache-less run on the same sources, recorded dependency keys = specifiers the "
+                 "emitted text declares (re-analysed with the real ParserModuleAnalyzer), and the read-set hypothesis "
+                 "of the transparency theorem (cache_soundb). Plus 160 (quick) / 4000 (thorough) relational histories "
+                 "on worlds WITH cross-package `export *` (25% of them the F-C12c shape), where only "
+                 "cached-vs-cache-less equality and determinism are judged. non-trivial = history with >= 1 cache hit "
+                 "and >= 2 cache writes (relational: >= 1 emitted module); distinct = distinct model input"),
+        "assumptions": [
+            "the tracer and the transform are data: per world state, module order / dependencies come from the hook and outcomes from the real cache-less run; the model covers the driver, the cache protocol and the slot assignment",
+            "what the tracer records for a package is assumed to be a function of the sources; this is false when another package re-exports * from it (tracing reaches across packages), so those worlds are judged relationally only (F-C12c)",
+            "source hashes are interned source texts (equal hash <=> equal source); the real u64 hashes are mapped to these ids when an entry is written",
+            "cache entries whose serialized module info fails to deserialize are not generated",
+            "Err outcomes carry at least one diagnostic (outcomes_wf), as in the code",
+            "known findings F-C12a (warm failed entry misses an entrypoint), F-C12b (failed entry validates although its cause changed) and F-C12c (cross-package export * + default) are reported as KNOWN-FINDING; model/implementation comparison of slots, cache and traffic is NOT suspended for F-C12a/b",
+        ],
+        "partial": ["C12_cache_transparent_partial has the read-set property of the tracer as an explicit hypothesis (CacheSound), checked on every step of every history; the hypothesis is FALSE in general (C12_cache_transparent_refuted, F-C12b)",
+                    "all-or-nothing after a cache hit on a failed entry holds only for the entrypoints the entry lists (C12_all_or_nothing_hit_failure); the full statement is refuted (C12_all_or_nothing_warm_refuted, F-C12a)",
+                    "determinism is proved as independence of the package iteration order; repeated real runs are compared",
+                    "'recorded dependencies = declared by the emitted text' is checked per emitted module, not proved (fill_module_dependencies belongs to C01/C08)"],
+    },
 }
